@@ -40,6 +40,9 @@ import (
 	"github.com/pbenner/autodiff/algorithm/rprop"
 	"github.com/pbenner/autodiff/algorithm/saga"
 	"github.com/pbenner/autodiff/algorithm/svd"
+	"github.com/pbenner/autodiff/statistics/scalarDistribution"
+	"github.com/pbenner/autodiff/statistics/scalarEstimator"
+	"github.com/pbenner/threadpool"
 
 	"verifharness/vh"
 )
@@ -849,6 +852,44 @@ func prepareOpt(c *scase) *call {
 				vh.Fatal("routine not bound: " + r)
 			}
 			return nil, err
+		}}
+	case strings.HasPrefix(c.Op, "opt.newton.HessianModification."):
+		parts := strings.SplitN(c.Op, ".", 5)
+		routine, val := parts[3], parts[4]
+		if val == "<empty>" {
+			val = ""
+		}
+		hm := newton.HessianModification{Value: val}
+		return &call{nil, func() (interface{}, error) {
+			switch routine {
+			case "newtonRoot":
+				return newton.RunRoot(root, x0(2), hm, newton.MaxIterations{Value: 3})
+			case "newtonCrit":
+				return newton.RunCrit(quad, x0(2), hm, newton.MaxIterations{Value: 3})
+			case "newtonMin":
+				return newton.RunMin(quad, x0(2), hm, newton.MaxIterations{Value: 3})
+			}
+			vh.Fatal("routine not bound: " + routine)
+			return nil, nil
+		}}
+	case strings.HasPrefix(c.Op, "opt.NumericEstimator.Method."):
+		val := strings.TrimPrefix(c.Op, "opt.NumericEstimator.Method.")
+		if val == "<empty>" {
+			val = ""
+		}
+		return &call{nil, func() (interface{}, error) {
+			dist, err := scalarDistribution.NewGammaDistribution(NewFloat64(2.0), NewFloat64(2.0))
+			if err != nil {
+				return nil, err
+			}
+			est, err := scalarEstimator.NewNumericEstimator(dist)
+			if err != nil {
+				return nil, err
+			}
+			est.Method = val
+			est.MaxIterations = 3
+			data := NewDenseFloat64Vector([]float64{0.5, 1.0, 1.5, 2.0, 0.7, 1.2})
+			return nil, est.EstimateOnData(data, nil, threadpool.Nil())
 		}}
 	case strings.HasPrefix(c.Op, "opt.InSitu."):
 		return prepareInSitu(c, A, x0, quad, root)
